@@ -135,8 +135,14 @@ def arpa_signature(hexe, dexe, work, data, cls, tag="shr"):
     return r[0], ("ok" if mv == "ok" else "error"), m
 
 
+SHRINK_BUDGET = [3]      # only the first few violations of a run are shrunk (a broken tree produces hundreds)
+
+
 def shrink_arpa(hexe, dexe, work, data, cls, want):
     """ddmin over lines keeping the (real, model) signature"""
+    if SHRINK_BUDGET[0] <= 0:
+        return data
+    SHRINK_BUDGET[0] -= 1
     lines = data.split(b"\n")
 
     def fails(ls):
